@@ -331,3 +331,239 @@ theorem step_rename {env : Env} {fs fs' : FS} {src dst : Path} {r : Ret} {f : By
       · exact Or.inr ⟨rfl, rfl⟩
 
 end Cacache
+
+namespace Cacache
+
+/-- The paths whose node a call may change in any way (create, modify, delete). -/
+def Call.touches (fs : FS) (c : Call) (q : Path) : Prop :=
+  match c with
+  | .mkdirP p => q <+: p
+  | .mkTemp dir => q = dir ++ [tmpName fs.next]
+  | .fallocate p _ | .writeAt p _ _ | .truncate p _ | .openAppend p | .appendWrite p _
+  | .unlink p => q = p
+  | .rename s d => q = s ∨ q = d
+  | .hardLink _ d | .symlink _ d | .reflink _ d => q = d
+  | .copyFile s d => q ∈ Call.fileTargets fs (.copyFile s d)
+  | .removeTree p => p <+: q
+  | _ => False
+
+theorem FS.mkdirLevels_frame (fs fs' : FS) (ps : List Path) (n : Nat)
+    (h : mkdirLevels fs ps n = .ok fs') (q : Path) (hq : q ∉ ps) : fs'.get q = fs.get q := by
+  induction ps generalizing fs n with
+  | nil => simp [mkdirLevels] at h; subst h; rfl
+  | cons p ps ih =>
+    have hqp : q ≠ p := fun e => hq (by simp [e])
+    have hqps : q ∉ ps := fun m => hq (by simp [m])
+    cases n with
+    | zero => simp [mkdirLevels] at h; subst h; rfl
+    | succ n =>
+      simp only [mkdirLevels] at h
+      split at h
+      · rw [ih _ _ h hqps, FS.get_put_ne _ _ hqp]
+      · exact ih _ _ h hqps
+      · exact ih _ _ h hqps
+      · cases h
+
+theorem FS.mem_prefixes {p q : Path} (h : q ∈ FS.prefixes p) : q <+: p := by
+  unfold FS.prefixes at h
+  obtain ⟨i, _, rfl⟩ := List.mem_map.mp h
+  exact List.take_prefix _ _
+
+theorem FS.delAll_frame (fs : FS) (ps : List Path) (q : Path) (hq : q ∉ ps) :
+    (fs.delAll ps).get q = fs.get q := by
+  unfold FS.delAll
+  induction ps generalizing fs with
+  | nil => rfl
+  | cons p ps ih =>
+    simp only [List.foldl_cons]
+    rw [ih _ (fun m => hq (by simp [m])), FS.get_del_ne _ (fun e => hq (by simp [e]))]
+
+open Prog in
+/-- **Frame**: a call (successful, failed or torn) leaves every path it does not touch alone. -/
+theorem step_frame (env : Env) (fs fs' : FS) (c : Call) (r : Ret) (h : Step env fs c fs' r)
+    (q : Path) (hq : ¬ c.touches fs q) : fs'.get q = fs.get q := by
+  cases h with
+  | fail e short =>
+    cases c <;> simp only [execFail, exec] <;> (try rfl)
+    all_goals (split <;> (try rfl))
+    all_goals (simp only [Call.touches] at hq; exact FS.get_put_ne _ _ hq)
+  | ok =>
+    cases c <;> simp only [Call.touches] at hq <;> simp only [exec]
+    case mkdirP p =>
+      split
+      · rename_i fs1 hm
+        exact FS.mkdirLevels_frame _ _ _ _ hm q (fun m => hq (FS.mem_prefixes m))
+      · rfl
+    case mkTemp dir => split <;> first | rfl | exact FS.get_put_ne _ _ hq
+    case fallocate p n =>
+      split <;> (try rfl)
+      split <;> (try rfl)
+      split <;> first | rfl | exact FS.get_put_ne _ _ hq
+    case writeAt p off d => split <;> first | rfl | exact FS.get_put_ne _ _ hq
+    case truncate p n => split <;> first | rfl | exact FS.get_put_ne _ _ hq
+    case rename s d =>
+      split <;> (try rfl)
+      split <;> (try rfl)
+      split <;> (try rfl)
+      rw [FS.get_put_ne _ _ (fun e => hq (Or.inr e)), FS.get_del_ne _ (fun e => hq (Or.inl e))]
+    case openAppend p =>
+      split <;> (try rfl)
+      split <;> first | rfl | exact FS.get_put_ne _ _ hq
+    case appendWrite p d => split <;> first | rfl | exact FS.get_put_ne _ _ hq
+    case readFile p => split <;> rfl
+    case sizeOf p => split <;> rfl
+    case unlink p => split <;> (try rfl) <;> exact FS.get_del_ne _ hq
+    case hardLink s d =>
+      split <;> (try rfl)
+      all_goals (split <;> (try rfl))
+      all_goals (split <;> (try rfl))
+      all_goals exact FS.get_put_ne _ _ hq
+    case symlink t p =>
+      split <;> (try rfl)
+      split <;> first | rfl | exact FS.get_put_ne _ _ hq
+    case copyFile s d =>
+      split <;> (try rfl)
+      unfold copyTo
+      split <;> (try rfl)
+      split <;> (try rfl)
+      · rename_i t hl
+        split <;> (try rfl)
+        rename_i q' hres
+        apply FS.get_put_ne
+        intro e; apply hq; simp [Call.fileTargets, hl, hres, e]
+      · rename_i hnd hnl
+        apply FS.get_put_ne
+        intro e; apply hq
+        subst e
+        simp only [Call.fileTargets]
+        first
+          | simp
+          | (split
+             · rename_i t hl; exact absurd hl (hnl t)
+             · simp)
+    case reflink s d =>
+      split <;> (try rfl)
+      split <;> (try rfl)
+      split <;> (try rfl)
+      split <;> first | rfl | exact FS.get_put_ne _ _ hq
+    case walk p =>
+      split <;> (try rfl)
+      split <;> rfl
+    case readDir p => split <;> rfl
+    case removeTree p =>
+      split <;> (try rfl)
+      · apply FS.delAll_frame
+        intro m
+        rcases List.mem_cons.mp m with e | m'
+        · exact hq (e ▸ List.prefix_refl _)
+        · exact hq (FS.below_prefix fs p q m')
+      · exact FS.get_del_ne _ (fun e => hq (e ▸ List.prefix_refl _))
+
+end Cacache
+
+namespace Cacache
+
+/-- Frame for torn states. -/
+theorem torn_frame (env : Env) (fs : FS) (t : Nat) (c : Call) (q : Path)
+    (hq : ¬ c.touches fs q) : (execTorn env fs t c).get q = fs.get q := by
+  cases c <;> simp only [execTorn] <;> (try rfl)
+  case writeAt p off d =>
+    exact step_frame env fs _ (.writeAt p off (d.take t)) _ .ok q (by simpa [Call.touches] using hq)
+  case appendWrite p d =>
+    exact step_frame env fs _ (.appendWrite p (d.take t)) _ .ok q (by simpa [Call.touches] using hq)
+  case mkdirP p =>
+    simp only [Call.touches] at hq
+    split
+    · rename_i fs1 hm
+      exact FS.mkdirLevels_frame _ _ _ _ hm q (fun m => hq (FS.mem_prefixes m))
+    · rfl
+  case copyFile s d =>
+    simp only [Call.touches] at hq
+    split <;> (try rfl)
+    unfold copyTo
+    split <;> (try rfl)
+    split <;> (try rfl)
+    · rename_i tt hl
+      split <;> (try rfl)
+      rename_i q' hres
+      apply FS.get_put_ne
+      intro e; apply hq; simp [Call.fileTargets, hl, hres, e]
+    · rename_i hnd hnl
+      apply FS.get_put_ne
+      intro e; apply hq
+      subst e
+      simp only [Call.fileTargets]
+      first
+        | simp
+        | (split
+           · rename_i tt hl; exact absurd hl (hnl tt)
+           · simp)
+  case removeTree p =>
+    simp only [Call.touches] at hq
+    split <;> (try rfl)
+    apply FS.delAll_frame
+    intro m
+    have := List.mem_of_mem_take m
+    rw [List.mem_reverse] at this
+    exact hq (Prog.FS.below_prefix fs p q this)
+
+end Cacache
+
+namespace Cacache
+open Prog
+
+/-- The call cannot change the node at `q`, in any state. -/
+def Call.avoids (q : Path) (c : Call) : Prop := ∀ fs, ¬ c.touches fs q
+
+/-- A program none of whose possible calls touches `q` leaves `q` alone: in the healthy run, … -/
+theorem AllCalls.frame_run {α : Type} {Ok : α → Prop} {p : Prog α} {q : Path}
+    (hp : AllCallsR (Call.avoids q) Ok p) (env : Env) (fs : FS) :
+    (run env p fs).2.1.get q = fs.get q := by
+  induction p generalizing fs with
+  | done a => rfl
+  | sys c k ih =>
+    simp only [run]
+    rw [ih _ (hp.2 _ (answer_exec env fs c)), step_frame env fs _ c _ .ok q (hp.1 fs)]
+
+/-- … at every kill point, … -/
+theorem AllCalls.frame_crash {α : Type} {Ok : α → Prop} {p : Prog α} {q : Path}
+    (hp : AllCallsR (Call.avoids q) Ok p) (env : Env) (fs : FS) (n t : Nat) :
+    (crash env p fs n t).get q = fs.get q := by
+  induction p generalizing fs n with
+  | done a => rfl
+  | sys c k ih =>
+    cases n with
+    | zero => exact torn_frame env fs t c q (hp.1 fs)
+    | succ n =>
+      simp only [crash]
+      rw [ih _ (hp.2 _ (answer_exec env fs c)), step_frame env fs _ c _ .ok q (hp.1 fs)]
+
+/-- … and under every fault plan. -/
+theorem AllCalls.frame_fault {α : Type} {Ok : α → Prop} {p : Prog α} {q : Path}
+    (hp : AllCallsR (Call.avoids q) Ok p) (env : Env) (plan : Nat → Option Fault) (fs : FS) (i : Nat) :
+    (runFault env plan p fs i).2.1.get q = fs.get q := by
+  induction p generalizing fs i with
+  | done a => rfl
+  | sys c k ih =>
+    simp only [runFault]
+    split
+    · rename_i f _
+      rw [ih _ (hp.2 _ (answer_err _ _)), step_frame env fs _ c _ (.fail f.e f.short) q (hp.1 fs)]
+    · rw [ih _ (hp.2 _ (answer_exec env fs c)), step_frame env fs _ c _ .ok q (hp.1 fs)]
+
+/-- Killing a sequential composition: the cut falls into the first part or into the second. -/
+theorem crash_bind {α β : Type} (env : Env) (p : Prog α) (f : α → Prog β) (fs : FS) (n t : Nat) :
+    crash env (Prog.bind p f) fs n t =
+      if n < (run env p fs).2.2.length then crash env p fs n t
+      else crash env (f (run env p fs).1) (run env p fs).2.1 (n - (run env p fs).2.2.length) t := by
+  induction p generalizing fs n with
+  | done a => simp [run]
+  | sys c k ih =>
+    cases n with
+    | zero => simp [run, crash]
+    | succ n =>
+      simp only [bind_sys, crash, run, List.length_cons]
+      rw [ih]
+      simp only [Nat.add_lt_add_iff_right, Nat.add_sub_add_right]
+
+end Cacache
